@@ -109,7 +109,13 @@ func (d *deepView) digestOf(v ssa.Value, fr *frame) digestInfo {
 	}
 	if !ir.IsNilConst(call.Call.Args[0]) {
 		// an empty slice with spare capacity is the same as nil for the result
-		if segs, ok := d.byteSeq(call.Call.Args[0], r.fr, 0); !ok || len(segs) != 0 {
+		empty := false
+		if mk, isMk := d.resolveConv(call.Call.Args[0], r.fr).v.(*ssa.MakeSlice); isMk {
+			if k, isK := ir.ConstInt(mk.Len); isK && k == 0 {
+				empty = true
+			}
+		}
+		if segs, ok := d.byteSeq(call.Call.Args[0], r.fr, 0); !empty && (!ok || len(segs) != 0) {
 			return digestInfo{why: "Sum is given a non-nil prefix"}
 		}
 	}
